@@ -72,12 +72,17 @@ pub enum HandlerOutcome {
 
 impl NetNode {
     pub fn new(key_index: u8, ncfg: NodeCfg, clock: Arc<AtomicU64>, static_peers: usize, batch_size: usize, io: MemIO) -> NetNode {
+        Self::new_with(key_index, ncfg, clock, static_peers, batch_size, io, false)
+    }
+    /// `spv`: a lite node (Configuration::is_spv_mode)
+    pub fn new_with(key_index: u8, ncfg: NodeCfg, clock: Arc<AtomicU64>, static_peers: usize, batch_size: usize, io: MemIO, spv: bool) -> NetNode {
         let (pk, sk) = key(key_index);
         let mut w = Wallet::new(sk, pk);
         w.core_version = Version::new(1, 2, 3);
         w.wallet_version = Version::new(1, 2, 3);
         let wallet_lock = Arc::new(RwLock::new(w));
         let mut cfgv = ncfg.to_cfg();
+        cfgv.spv = spv;
         for i in 0..static_peers {
             cfgv.peers.push(PeerConfig {
                 host: format!("peer{i}"),
